@@ -177,8 +177,19 @@ Record wstate := {
 
 (* thresholds are parameters: Go uses NewLocalHeap(256), NewSymbolTableNode(32)/WriteAt(..,32,..),
    and a 255-byte header chunk which bounds len(name)+len(target) of a soft link by 244 *)
-Record cfg := { heap_cap : N; snod_cap : N; soft_max : N }.
-Definition go_cfg : cfg := {| heap_cap := 256; snod_cap := 32; soft_max := 244 |}.
+Record cfg := { heap_cap : N; snod_cap : N; soft_max : N;
+  (* three candidate repairs (notes/fixes/*.patch), off in the tree as it is; the theorems hold for
+     every value, the tie reads the values from the source (tools/props/c03unit.py: source_cfg) *)
+  strict_names : bool;      (* linkToParent refuses empty names and names with a NUL byte *)
+  canon_group_key : bool;   (* CreateGroup trims one trailing slash before parsing / registering *)
+  rc_rollback_fix : bool    (* writeV2RefCount also updates an existing RefCount message when the count is 1 *)
+}.
+Definition go_cfg : cfg := {| heap_cap := 256; snod_cap := 32; soft_max := 244;
+                              strict_names := false; canon_group_key := false; rc_rollback_fix := false |}.
+
+(* heap-level well-formedness of a link name: non-empty, no NUL byte *)
+Definition heap_name_ok (n : name) : bool :=
+  negb (match n with [] => true | _ => false end) && forallb (fun b => negb (b =? 0)) n.
 
 Definition set_heaps (w : wstate) h := {| clock := clock w; groups := groups w; heaps := h; snods := snods w; objects := objects w |}.
 Definition set_snods (w : wstate) s := {| clock := clock w; groups := groups w; heaps := heaps w; snods := s; objects := objects w |}.
@@ -205,6 +216,7 @@ Definition entry_has_name (seg : bytes) (nm : name) (e : entry) : bool :=
    AddString (in memory); AddEntry (in memory); heap.WriteTo; stNode.WriteAt.
    Nothing reaches the file before both in-memory insertions have succeeded. *)
 Definition link_to_parent (c : cfg) (w : wstate) (parent : path) (nm : name) (child : N) : wstate * result :=
+  if strict_names c && negb (heap_name_ok nm) then (w, Err EInvalidPath) else
   match parent_group w parent with
   | None => (w, Err ENoParent)
   | Some g =>
@@ -234,8 +246,9 @@ Definition parent_registered (w : wstate) (parent : path) : bool :=
 
 (* CreateGroup: validate; parsePath; parent check; createGroupStructures (heap, SNOD, B-tree written
    at fresh addresses) and the object header; linkToParent; only then fw.groups[path] (raw path!). *)
-Definition create_group (c : cfg) (w : wstate) (p : path) : wstate * result :=
-  if negb (validate_group_path p) then (w, Err EInvalidPath) else
+Definition create_group (c : cfg) (w : wstate) (p0 : path) : wstate * result :=
+  if negb (validate_group_path p0) then (w, Err EInvalidPath) else
+  let p := if canon_group_key c then trim_suffix_slash p0 else p0 in
   let '(parent, nm) := parse_path p in
   if negb (parent_registered w parent) then (w, Err ENoParent) else
   let id := clock w in
@@ -273,8 +286,10 @@ Definition resolve_object_address (w : wstate) (q : path) : option N :=
 
 (* writeV2RefCount: the RefCount message is added/updated only when ReferenceCount > 1;
    otherwise the header is rewritten with whatever messages it has *)
-Definition write_refcount (o : obj) (rc : N) : obj :=
-  {| o_kind := o_kind o; o_rcmsg := if 1 <? rc then Some rc else o_rcmsg o |}.
+Definition write_refcount (c : cfg) (o : obj) (rc : N) : obj :=
+  {| o_kind := o_kind o;
+     o_rcmsg := if (1 <? rc) || (rc_rollback_fix c && match o_rcmsg o with Some _ => true | None => false end)
+                then Some rc else o_rcmsg o |}.
 
 (* CreateHardLink: validate both paths; parent check; resolve target; ReferenceCount++ written to the
    target header; linkToParent; on failure ReferenceCount-- and the header is written again *)
@@ -290,13 +305,13 @@ Definition create_hard_link (c : cfg) (w : wstate) (p q : path) : wstate * resul
     | None => (w, Err EIO)
     | Some o =>
         let rc1 := wrap32 (refcount o + 1) in
-        let o1 := write_refcount o rc1 in
+        let o1 := write_refcount c o rc1 in
         let w1 := set_objects w (aset t o1 (objects w)) in
         match link_to_parent c w1 parent nm t with
         | (w2, Ok) => (w2, Ok)
         | (w2, Err e) =>
             let rc2 := if 0 <? rc1 then rc1 - 1 else rc1 in
-            (set_objects w2 (aset t (write_refcount o1 rc2) (objects w2)), Err e)
+            (set_objects w2 (aset t (write_refcount c o1 rc2) (objects w2)), Err e)
         end
     end
   end.
@@ -562,13 +577,18 @@ Fixpoint adm (c : cfg) (t : stree) (h : list op) : bool :=
 Definition no_soft (h : list op) : bool :=
   forallb (fun o => match o with SoftLink _ _ => false | _ => true end) h.
 
-(* the name under which an operation links (what linkToParent receives) *)
-Definition op_link_name (o : op) : name :=
-  match o with MkGroup p | MkDataset p | HardLink p _ | SoftLink p _ => snd (parse_path p) end.
-(* heap-level exclusion: the linked name is non-empty and has no NUL byte *)
-Definition heap_name_ok (n : name) : bool :=
-  negb (match n with [] => true | _ => false end) && forallb (fun b => negb (b =? 0)) n.
-Definition names_ok (h : list op) : bool := forallb (fun o => heap_name_ok (op_link_name o)) h.
+(* the path an operation parses (CreateGroup may trim a trailing slash first) and the name under
+   which it links (what linkToParent receives) *)
+Definition op_path_eff (c : cfg) (o : op) : path :=
+  match o with
+  | MkGroup p => if canon_group_key c then trim_suffix_slash p else p
+  | MkDataset p | HardLink p _ | SoftLink p _ => p
+  end.
+Definition op_link_name (c : cfg) (o : op) : name := snd (parse_path (op_path_eff c o)).
+(* heap-level exclusion: the linked name is non-empty and has no NUL byte (heap_name_ok above);
+   not needed when linkToParent checks it itself (strict_names) *)
+Definition names_ok (c : cfg) (h : list op) : bool :=
+  strict_names c || forallb (fun o => heap_name_ok (op_link_name c o)) h.
 
 (* every group's entry names (as the reader decodes them), for C03_no_dup *)
 Definition group_names (w : wstate) (g : N) : option (list (option name)) :=
